@@ -111,6 +111,184 @@ def c16_wrong_center(ev):
     ev[i]["center"][0] += 2
 
 
+def c02_pixel_outside_box(ev):
+    i = first(ev, "draw", lambda e: len(e["touched"]) > 0)
+    ev[i]["touched"][-1][2] += 1000
+
+
+def c02_transparent_draws(ev):
+    i = first(ev, "draw", lambda e: len(e["touched"]) > 0)
+    for k in ev[i]["style"]:
+        ev[i]["style"][k] = -1 if isinstance(ev[i]["style"][k], int) and k not in ("w", "al") else ev[i]["style"][k]
+    if "w" in ev[i]["style"]:
+        ev[i]["style"]["w"] = 0
+
+
+def c06_drop_draw_run(ev):
+    i = first(ev, "styled", lambda e: len(e["draw"]) > 2 and len(e["F"]) > 0)
+    ev[i]["draw"].pop(len(ev[i]["draw"]) // 2)
+
+
+def c06_stroke_into_fill(ev):
+    # recolour: claim the fill runs were painted with nothing (remove the whole fill from draw by emptying it)
+    i = first(ev, "styled", lambda e: len(e["draw"]) > 0 and len(e["S"]) > 0)
+    ev[i]["draw"] = []
+
+
+def c07_shift_box(ev):
+    i = first(ev, "pair", lambda e: e["box1"][2] > 0 and e["box1"][3] > 0)
+    ev[i]["box1"][0] += 1
+
+
+def c07_shift_map(ev):
+    i = first(ev, "pair", lambda e: len(e["map1"]) > 0)
+    ev[i]["map1"][0][0] += 1
+
+
+def c08_allocation(ev):
+    i = first(ev, "calls", lambda e: len(e["calls"]) > 0)
+    ev[i]["calls"][0]["allocs"] = 1
+
+
+def c08_panic(ev):
+    i = first(ev, "calls", lambda e: len(e["calls"]) > 0)
+    ev[i]["calls"][-1]["outcome"] = "panic"
+    ev[i]["calls"][-1]["msg"] = "attempt to add with overflow"
+    ev[i]["calls"][-1]["loc"] = "src/x.rs:1"
+
+
+def c09_wrong_colour(ev):
+    i = first(ev, "draw", lambda e: any(c["m"] == "fc" and c["n"] > 1 for c in e["native"]))
+    for c in ev[i]["native"]:
+        if c["m"] == "fc" and c["n"] > 1:
+            c["cs"][1] ^= 1
+            return
+
+
+def c09_stream_too_long(ev):
+    i = first(ev, "draw", lambda e: any(c["m"] == "fc" and c["n"] > 1 for c in e["native"]))
+    for c in ev[i]["native"]:
+        if c["m"] == "fc" and c["n"] > 1:
+            c["n"] += c["area"][2]
+            return
+
+
+def c10_readback(ev):
+    i = first(ev, "op", lambda e: any(len(p[2]) == 1 for p in e["probes"]))
+    for p in ev[i]["probes"]:
+        if len(p[2]) == 1:
+            p[2][0] ^= 1
+            return
+
+
+def c10_tail(ev):
+    i = first(ev, "op", lambda e: len(e["data"]) > 0)
+    ev[i]["data"][-1] ^= 0x80
+
+
+def c11_load_value(ev):
+    i = first(ev, "load", lambda e: any(len(it[1]) == 1 for it in e["items"]))
+    for it in ev[i]["items"]:
+        if len(it[1]) == 1:
+            it[1][0] ^= 1
+            return
+
+
+def c11_store_neighbour(ev):
+    i = first(ev, "store", lambda e: any(len(it[3]) > 1 for it in e["items"]))
+    for it in ev[i]["items"]:
+        if len(it[3]) > 1 and it[2] == 1:
+            it[3][-1] ^= 0x10
+            it[3][0] ^= 0x01
+            return
+
+
+def c12_raw(ev):
+    i = first(ev, "row")
+    ev[i]["raw"][5] += 1
+
+
+def c12_rt(ev):
+    i = first(ev, "rawrow", lambda e: len(e["rt2"]) > 0)
+    ev[i]["rt2"][-1] ^= 1
+
+
+def c13_white(ev):
+    i = first(ev, "pair", lambda e: len(e["white"]) > 0 and e["white"][0] > 0)
+    ev[i]["white"][0] -= 1
+
+
+def c13_nearest(ev):
+    i = first(ev, "pair", lambda e: len(e["rels"]) > 0 and len(e["rels"][0]) > 3)
+    ev[i]["rels"][0][2][1] += 2
+
+
+def c14_glyph_pixel(ev):
+    i = first(ev, "line", lambda e: e["map"][2] > 4 and e["map"][3] > 4)
+    rows = ev[i]["map"][4]
+    y, x = len(rows) // 2, len(rows[0]) // 2
+    rows[y][x] = -1 if rows[y][x] != -1 else ev[i]["tc"]
+
+
+def c14_index(ev):
+    i = first(ev, "font", lambda e: len(e["probes"]) > 5)
+    ev[i]["probes"][3][1] += 1
+
+
+def c15_ret(ev):
+    i = first(ev, "layout", lambda e: len(e["text"]) > 0)
+    ev[i]["whole"]["ret"][0] += 1
+    ev[i]["lf"]["ret"][0] += 1 if ev[i]["lf"]["text"] == ev[i]["text"] else 0
+
+
+def c15_bbox(ev):
+    i = first(ev, "layout", lambda e: e["lf"]["text"] != e["text"])
+    ev[i]["whole"]["bbox"][2] += 1
+
+
+def c17_drop_point(ev):
+    i = first(ev, "line", lambda e: len(e["pts"]) > 4)
+    ev[i]["pts"].pop(2)
+
+
+def c17_twice(ev):
+    i = first(ev, "line", lambda e: any(len(s[1]) > 3 and s[0] > 1 for s in e["strokes"]))
+    for s in ev[i]["strokes"]:
+        if len(s[1]) > 3 and s[0] > 1:
+            s[1].append(s[1][0])
+            return
+
+
+def c18_drop_run(ev):
+    i = first(ev, "curve", lambda e: len(e["set"]) > 4)
+    ev[i]["set"].pop(len(ev[i]["set"]) // 2)
+
+
+def c18_confine(ev):
+    i = first(ev, "confine")
+    ev[i]["rout"][0][0] += ev[i]["size"][0]
+
+
+def c19_order(ev):
+    i = first(ev, "tri", lambda e: len(e["ts"][0]) > 2)
+    ev[i]["ts"][3] = ev[i]["ts"][3][:-1]
+
+
+def c19_poly_twice(ev):
+    i = first(ev, "poly", lambda e: len(e["pts"]) > 2)
+    ev[i]["pts"].append(ev[i]["pts"][0])
+
+
+def c20_eq(ev):
+    i = first(ev, "obs", lambda e: e["eq"] == 1)
+    ev[i]["eq"] = 0
+
+
+def c20_affected(ev):
+    i = first(ev, "obs", lambda e: e["aa"][2] > 0)
+    ev[i]["aa"][2] += 1
+
+
 def renumber(ev):
     for e in ev:
         e["case"] += 100000
@@ -122,6 +300,21 @@ CORRUPTIONS = {
     "C04": [c04_extra_call, c04_swallow],
     "C05": [c05_swap_points, c05_extra_contains],
     "C16": [c16_bump_intersection, c16_wrong_center],
+    "C02": [c02_pixel_outside_box, c02_transparent_draws],
+    "C06": [c06_drop_draw_run, c06_stroke_into_fill],
+    "C07": [c07_shift_box, c07_shift_map],
+    "C08": [c08_allocation, c08_panic],
+    "C09": [c09_wrong_colour, c09_stream_too_long],
+    "C10": [c10_readback, c10_tail],
+    "C11": [c11_load_value, c11_store_neighbour],
+    "C12": [c12_raw, c12_rt],
+    "C13": [c13_white, c13_nearest],
+    "C14": [c14_glyph_pixel, c14_index],
+    "C15": [c15_ret, c15_bbox],
+    "C17": [c17_drop_point, c17_twice],
+    "C18": [c18_drop_run, c18_confine],
+    "C19": [c19_order, c19_poly_twice],
+    "C20": [c20_eq, c20_affected],
 }
 
 
@@ -136,22 +329,35 @@ def main():
         open(os.path.join(work, "empty"), "w").close()
         subprocess.run([binpath, "--tier", "quick", "--seed", "1", "--out", out, "--shards", "4", "--gen", os.path.join(work, "empty"),
                         "--witnesses", os.path.join(work, "empty")], check=True, stdout=subprocess.DEVNULL)
-        shard = sorted(p for p in os.listdir(out) if p.endswith(".ndjson"))[0]
-        base = load(os.path.join(out, shard))
-        n, accepted = run(pid, base, work, "clean")
-        print("%s clean shard prefix (%d events): verdicts=%d accepted=%s" % (pid, len(base), n, accepted))
-        ok &= (n == 0 and accepted)
+        shards = sorted(p for p in os.listdir(out) if p.endswith(".ndjson"))
+        base = load(os.path.join(out, shards[0]))
+        n0, accepted = run(pid, base, work, "clean")
+        # (verdicts on the unchanged trace are the occurrences of OPEN known findings, e.g. D12 for C14 / C15)
+        print("%s clean shard prefix (%d events): verdicts=%d accepted=%s" % (pid, len(base), n0, accepted))
+        ok &= accepted
         ev = copy.deepcopy(base)
         renumber(ev)
         n, accepted = run(pid, ev, work, "renumbered")
         print("%s neutral edit (case ids renumbered): verdicts=%d accepted=%s" % (pid, n, accepted))
-        ok &= (n == 0 and accepted)
+        ok &= (n == n0 and accepted)
         for c in CORRUPTIONS[pid]:
-            ev = copy.deepcopy(base)
-            c(ev)
-            n, accepted = run(pid, ev, work, c.__name__)
-            print("%s corruption %-24s verdicts=%d accepted=%s -> %s" % (pid, c.__name__, n, accepted, "DETECTED" if (n > 0 or not accepted) else "MISSED"))
-            ok &= (n > 0 or not accepted)
+            # the first shard whose prefix holds an event this corruption applies to
+            for sh in shards:
+                b = base if sh == shards[0] else load(os.path.join(out, sh))
+                ev = copy.deepcopy(b)
+                try:
+                    c(ev)
+                except SystemExit:
+                    continue
+                nb = n0 if sh == shards[0] else run(pid, b, work, "clean_" + sh)[0]
+                n, accepted = run(pid, ev, work, c.__name__)
+                det = n > nb or not accepted
+                print("%s corruption %-24s verdicts=%d (unchanged: %d) accepted=%s -> %s" % (pid, c.__name__, n, nb, accepted, "DETECTED" if det else "MISSED"))
+                ok &= det
+                break
+            else:
+                print("%s corruption %-24s no applicable event in any shard prefix" % (pid, c.__name__))
+                ok = False
         subprocess.run(["rm", "-rf", work])
     print("selftest", "PASSED" if ok else "FAILED")
     return 0 if ok else 1
